@@ -113,12 +113,43 @@ theorem wwwHere_label (lab rest : Str) (hl : '.' ∉ lab) :
       | nil => by_cases hdig : isAsciiDigit d = true <;> simp [hdig]
       | cons e es => by_cases hdig : isAsciiDigit d = true <;> simp [hdig]
 
+theorem afterChar_dot (r : Str) : afterChar '.' r = dotHere r := by
+  cases r with
+  | nil => rfl
+  | cons c cs =>
+    by_cases h : c = '.'
+    · subst h; simp [afterChar, dotHere]
+    · simp only [afterChar, h, if_false]
+      unfold dotHere
+      split
+      · rename_i e heq
+        simp only [List.cons.injEq] at heq
+        exact absurd heq.1 h
+      · rfl
+
+theorem www_eq (s : Str) :
+    ((matchLit "www".toList s).bind fun r => ((afterDigit r).bind dotHere).or (dotHere r)) = wwwHere s := by
+  unfold wwwHere
+  cases matchLit "www".toList s with
+  | none => rfl
+  | some r =>
+    cases r with
+    | nil => rfl
+    | cons d r' =>
+      by_cases hd : isAsciiDigit d = true
+      · simp [afterDigit, hd]
+      · have hd' : isAsciiDigit d = false := by simpa using hd
+        simp [afterDigit, hd']
+
 theorem irrelevantLabelHere_eq (amp : Bool) (s : Str) :
     irrelevantLabelHere amp s =
       (wwwHere s).or (((matchLit "mobile".toList s).bind dotHere).or
         ((if amp then (matchLit "amp".toList s).bind dotHere else none).or
           ((matchLit "m".toList s).bind dotHere))) := by
-  rfl
+  have h : afterChar '.' = dotHere := funext afterChar_dot
+  unfold irrelevantLabelHere
+  simp only [h]
+  rw [www_eq]
 
 /-- **locality**: at the start of a dot-free label followed by a dot, the pattern matches iff
 the label is one of the irrelevant labels, and then it matches exactly the label and its dot -/
